@@ -2,11 +2,15 @@ import LdkModel.Driver.Util
 import LdkModel.Model.Codec
 import LdkModel.Generated.MsgSchemas
 import LdkModel.Model.MsgSchemasHand
+import LdkModel.Model.MsgCustom
 import LdkModel.Generated.WireTypes
 /-! C13 model driver.  ops:
     dec <MsgName> <hex>    decode with the generated schema of <MsgName>; `ok <hex of re-encoding>` / `err <DecodeError>`
     wire <hex>             wireRead over the generated dispatch table; `ok <Name> <id> <re-encoding>` /
                            `ok Unknown <id> ignore|disconnect` (peerDispatch) / `err <DecodeError>`
+                           custom codecs (Model/MsgCustom.lean) append the parsed structure to the `ok` line:
+                           (Unsigned)NodeAnnouncement ` a=<descriptor type bytes, comma separated> x=<len excess_address_data> e=<len excess_data>`,
+                           QueryShortChannelIds / ReplyChannelRange ` n=<number of ids>`; Init: nothing
     bigsize <hex>          BigSize.decode; `ok <n> <rest hex>` / `err <DecodeError>`
     bigenc <n>             BigSize.encode -/
 namespace Ldk.Driver
@@ -19,6 +23,32 @@ def wireTable : List (Nat × Schema) :=
     match (generatedSchemas ++ Hand.handSchemas).find? (fun s => s.name == n), wireTypes.lookup n with
     | some s, some t => some (t, s)
     | _, _ => none
+
+/-- answer of the custom decoders of Model/MsgCustom.lean; `none` = not one of them -/
+def customDec (name : String) (b : Bytes) : Option (Except String (String × String)) :=
+  let nodeAnn (hdr : List FieldTy) : Except String (String × String) :=
+    match Custom.decodeNodeAnn sockAddrKinds hdr b with
+    | .ok m => .ok (hex (Custom.encodeNodeAnn sockAddrKinds hdr m), " a=" ++ ",".intercalate (m.addresses.map fun a => toString a.id) ++
+        s!" x={m.excessAddr.length} e={m.excess.length}")
+    | .error e => .error e.name
+  let scid (rules : ScidRules) (hdr : List FieldTy) : Except String (String × String) :=
+    match Custom.decodeScidMsg rules hdr b with
+    | .ok (m, _) => .ok (hex (Custom.encodeScidMsg rules hdr m), s!" n={m.scids.length}")
+    | .error e => .error e.name
+  if name == "UnsignedNodeAnnouncement" then some (nodeAnn Custom.nodeAnnHeader)
+  else if name == "NodeAnnouncement" then some (nodeAnn Custom.nodeAnnSignedHeader)
+  else if name == "QueryShortChannelIds" then some (scid queryShortChannelIdsRules Custom.queryScidHeader)
+  else if name == "ReplyChannelRange" then some (scid replyChannelRangeRules Custom.replyRangeHeader)
+  else if name == "Init" then
+    some (match Custom.decodeInit b with
+      | .ok m => .ok (hex (Custom.encodeInit m), "")
+      | .error e => .error e.name)
+  else none
+
+/-- wire ids of the custom-decoder messages that `wire::do_read` dispatches -/
+def customWire : List (Nat × String) :=
+  wireDispatch.filterMap fun n =>
+    if Custom.customNames.contains n then (wireTypes.lookup n).map (·, n) else none
 
 def c13 : Drv where
   σ := Unit
@@ -46,12 +76,21 @@ def c13 : Drv where
             match Hand.decodePong (unhex h) with
             | .ok bl => ((), "ok " ++ hex (Hand.encodePong bl))
             | .error e => ((), "err " ++ e.name)
-          else ((), "no-schema")
+          else match customDec name (unhex h) with
+            | some (.ok (re, suffix)) => ((), "ok " ++ re ++ suffix)
+            | some (.error e) => ((), "err " ++ e)
+            | none => ((), "no-schema")
         | some s =>
           match s.decode (unhex h) with
           | .ok (vs, ex) => ((), "ok " ++ hex (s.encode vs ex))
           | .error e => ((), "err " ++ e.name)
     | ["wire", h] =>
+      match (match readUint 2 (unhex h) with
+             | .ok (t, r) => (customWire.lookup t).bind fun n => (customDec n r).map fun ans => (t, n, ans)
+             | .error _ => none) with
+      | some (t, n, .ok (re, _)) => ((), s!"ok {n} {t} " ++ re)   -- same line format as the schema messages
+      | some (_, _, .error e) => ((), "err " ++ e)
+      | none =>
       match wireRead wireTable (unhex h) with
       | .error e => ((), "err " ++ e.name)
       | .ok (.known t name v) =>
